@@ -265,12 +265,25 @@ def c02(chk):
         f = 2.0 ** chk.rng.choice([-10, -7, -4, 5, 8, 11, 13])
         c.h = [x * f for x in c.h]
         chk.count('rescaled in time')
-    cpp, mod = run_both(cases)
+    # long splines (N beyond any block size or unrolling width): the continuity oracle on the published coefficients needs no model
+    nmodel = len(cases)
+    for order in (3, 5, 7):
+        for n in ([65, 130] if not chk.thorough() else [63, 64, 65, 127, 128, 129, 257]):
+            c = gen.spline_case(chk.rng, order, chk.rng.choice([1, 2, 3]), n, with_grad=False, short=1.0)
+            c.mode = 'dur'; c.t0 = 0.0
+            cases.append(c)
+    cpp = runner.run_harness(harness(), [c.line(i, 'Q') for i, c in enumerate(cases)])[0]
+    mod = runner.run_model_sharded([c.line(i, 'Q') for i, c in enumerate(cases[:nmodel])], 16)
     chk.evaluations += len(cases)
     dense_budget = 40 if not chk.thorough() else 200
     for i, c in enumerate(cases):
         struct_cells(chk, c)
-        a, b = cpp[str(i)], mod[str(i)]
+        a = cpp[str(i)]
+        if i >= nmodel:
+            c02_jumps(chk, c, a)
+            c18_interp(chk, c, a)
+            continue
+        b = mod[str(i)]
         compare(chk, c, a, b, ['coeffs'])
         c02_jumps(chk, c, a)
         # independent dense solve of the optimality conditions (definition, not the code's reduced system)
@@ -613,6 +626,29 @@ def c13(chk):
     cases = std_cases(chk, with_grad=True, n_list=nl, d_list=dl, gkinds=('dense', 'rowsparse'))
     for c in cases:
         c.mode = 'dur'
+    # coordinates of very different magnitude, on reused objects: a third of the problems get one coordinate scaled by 2^43 and
+    # are followed, on the same D-dimensional object and on the same D one-dimensional objects, by the same problem with a
+    # single waypoint entry of a *small* coordinate changed by 1/8 (relative to the whole waypoint matrix that is 1e-14: a
+    # "nothing changed" test on an aggregate norm would skip the update of the D-dimensional object only)
+    extra = []
+    for q, c in enumerate(cases):
+        if q % 3 or c.d < 2:
+            continue
+        jbig = rng.randrange(c.d)
+        f = 2.0 ** 43
+        c.P = [[x * f if j == jbig else x for j, x in enumerate(r)] for r in c.P]
+        c.bc = [[x * f if j == jbig else x for j, x in enumerate(b)] for b in c.bc]
+        c.slot = 500 + q
+        c.meta['col_slot'] = 20000 + q * 16
+        c2 = copy.deepcopy(c)
+        jsmall = rng.choice([j for j in range(c.d) if j != jbig])
+        c2.P[rng.randrange(c.n + 1)][jsmall] += 0.125
+        c2.qorder = c.qorder % 10                 # plain update overload on the reused object
+        c2.mode = 'dur'
+        extra.append((q, c2))
+        chk.count('magnitude disparity + tiny edit on reused objects')
+    for q, c2 in reversed(extra):
+        cases.insert(q + 1, c2)
     allc = []
     index = []
     for c in cases:
@@ -620,7 +656,8 @@ def c13(chk):
         allc.append(c)
         for j in range(c.d):            # the D one-dimensional problems
             o = gen.SplineCase(c.order, 1, c.n, c.h, [[r[j]] for r in c.P], [[b[j]] for b in c.bc], t0=c.t0, mode='dur',
-                               gC=[[r[j]] for r in c.gC], gT=[0.0] * c.n)
+                               gC=[[r[j]] for r in c.gC], gT=[0.0] * c.n,
+                               slot=(c.meta['col_slot'] + j if 'col_slot' in c.meta else -1))
             allc.append(o)
         perm = list(range(c.d)); rng.shuffle(perm)
         p = gen.SplineCase(c.order, c.d, c.n, c.h, [[r[k] for k in perm] for r in c.P], [[b[k] for k in perm] for b in c.bc],
@@ -633,7 +670,9 @@ def c13(chk):
     for base, c, perm in index:
         struct_cells(chk, c)
         a = cpp[str(base)]
-        compare(chk, c, a, mod[str(base)], ['coeffs', 'energy', 'prop_inner', 'prop_times', 'prop_b'], tol=TOL[c.order] * 10)
+        if 'col_slot' not in c.meta:      # (with one coordinate scaled by 2^43 the block-wise tolerance rule of section 4 does not apply:
+            # a coefficient that is exactly 0 comes out as rounding noise of size 1e-16 * 7e13; the column comparisons below stay)
+            compare(chk, c, a, mod[str(base)], ['coeffs', 'energy', 'prop_inner', 'prop_times', 'prop_b'], tol=TOL[c.order] * 10)
         ones = [cpp[str(base + 1 + j)] for j in range(c.d)]
         pa = cpp[str(base + 1 + c.d)]
         nc = NC[c.order]
@@ -897,10 +936,22 @@ def c10_splines(chk):
                         c.t0 = prev.t0 + rng.choice([0.5, -2.0, 3.25, 64.0])
                         c.mode = rng.choice(['dur', 'dur', 'tp'])
                         chk.count('history: same durations, new start time')
+                    elif prev is not None and rng.random() < 0.35:
+                        # the previous problem again with one waypoint entry (or one boundary entry) moved by a few ulps: an
+                        # "inputs unchanged" shortcut that compares approximately keeps the old solution
+                        c = copy.deepcopy(prev)
+                        if rng.random() < 0.7:
+                            r_ = rng.randrange(c.n + 1); j_ = rng.randrange(c.d)
+                            c.P[r_][j_] += 2.0 ** -rng.choice([36, 44, 50]) * (1.0 + abs(c.P[r_][j_]))
+                        else:
+                            b_ = rng.randrange(6); j_ = rng.randrange(c.d)
+                            c.bc[b_][j_] += 2.0 ** -rng.choice([36, 44, 50]) * (1.0 + abs(c.bc[b_][j_]))
+                        c.meta['direct'] = True          # plain update call (no staging through other overloads / moves)
+                        chk.count('history: previous problem with one entry moved by a few ulps')
                     prev = c
                     c.evals = [(c.t0 + rng.uniform(-0.5, sum(c.h) + 0.5), rng.randrange(0, NC[order] + 1)) for _ in range(3)]
                     variants = []
-                    for slot_, qo in ((slot, rng.randrange(4) + 10 * rng.choice([0, 0, 1, 2, 3])), (-1, 0), (-1, 1)):
+                    for slot_, qo in ((slot, rng.randrange(4) + (0 if c.meta.get('direct') else 10 * rng.choice([0, 0, 1, 2, 3]))), (-1, 0), (-1, 1)):
                         v = copy.deepcopy(c); v.slot = slot_; v.qorder = qo
                         variants.append(v)
                     for v in variants:
